@@ -94,6 +94,37 @@ def dump_plan(plan):
     return tops
 
 
+def bad_ref_kinds(tops):
+    """why a dumped plan is ill-formed (used only to match known findings; the verdict is Coq's wf_plan)"""
+    kinds = set()
+    for i, (n, refs, subs) in enumerate(tops):
+        if n != f'Top {i}':
+            kinds.add('numbering')
+        for r in refs:
+            m = re.fullmatch(r'Top (\d+)', r)
+            if not m:
+                kinds.add('top_reads_substep_or_dangling')
+            elif int(m.group(1)) >= i:
+                kinds.add('top_reads_later_top')
+        for j, (sn, srefs) in enumerate(subs):
+            if sn != f'Sub {i} {j}':
+                kinds.add('numbering')
+            for r in srefs:
+                m = re.fullmatch(r'Top (\d+)', r)
+                m2 = re.fullmatch(r'Sub (\d+) (\d+)', r)
+                if m:
+                    if int(m.group(1)) >= i:
+                        kinds.add('substep_reads_later_top')
+                elif m2:
+                    if int(m2.group(1)) != i:
+                        kinds.add('substep_reads_foreign_substep')
+                    elif int(m2.group(2)) >= j:
+                        kinds.add('substep_reads_later_substep')
+                else:
+                    kinds.add('dangling')
+    return kinds
+
+
 def coq_plan(tops):
     def l(xs):
         return '[' + '; '.join(xs) + ']'
@@ -209,6 +240,8 @@ def run(tier, seed, replay=None):
         rp = json.loads(open(replay).read())
         inputs = [(rp['sql'], rp.get('catalog', 'names'))] if 'sql' in rp else []
         n = 0
+    if not replay:
+        inputs += [(sq, cn) for sq in plangen.EDGE_STATEMENTS for cn, _ in cats]
     for _ in range(n):
         sql, meta = plangen.gen_statement(rng, plangen.ALL_FEATURES)
         inputs.append((sql, rng.choice(cats)[0]))
@@ -287,14 +320,12 @@ def run(tier, seed, replay=None):
             broken.append(BrokenTie(f'a disciplined call sequence produced an ill-formed plan: `{sql}`'))
         if not wf:
             n_bad += 1
-            feats = set()
-            if 'partition_size' in sql.lower():
-                feats.add('partition_size')
-            fd = [f for f in findings if f['classifier'].get('kind') == 'illformed' and set(f['classifier']['needs']) <= feats]
+            feats = bad_ref_kinds(dp)
+            fd = [f for f in findings if f['classifier'].get('kind') == 'illformed' and feats and feats <= set(f['classifier']['bad_refs'])]
             if fd:
                 R.known_finding(f'{fd[0]["id"]}: {fd[0]["what"]}')
             else:
-                R.violation({'sql': sql, 'catalog': cname, 'plan': [list(t) for t in dp],
+                R.violation({'sql': sql, 'catalog': cname, 'plan': [list(t) for t in dp], 'bad_references': sorted(feats),
                              'what': 'the emitted plan is not a forward-only dataflow program (numbering or a reference pointing forwards)'})
                 if len(R.violations) > 5:
                     break
